@@ -271,24 +271,24 @@ theorem C15_core_no_leak_exact (conv snd0 rcv0 : U32) (ops : List Kcp.Op) (id : 
 /-! ### non-vacuity: a concrete history with the interesting cases -/
 
 /-- header of one segment -/
-def exHdr (cmd : Nat) (sn una : Nat) (len : Nat) : Bytes :=
+def c15ExHdr (cmd : Nat) (sn una : Nat) (len : Nat) : Bytes :=
   Kcp.encodeHdr 7 (BitVec.ofNat 8 cmd) 0 32 0 (BitVec.ofNat 32 sn) (BitVec.ofNat 32 una) len
 
 /-- congestion control off (the first flush admits); two messages sent and transmitted; ACK for sn 1, the same ACK again (must not put twice), a
 cumulative ack passing both (must put sn 0 only), a PUSH sn 0 twice (one get), a Recv -/
-def exOps : List Kcp.Op :=
+def c15ExOps : List Kcp.Op :=
   [.noDelay 1 10 2 1, .send [1, 2, 3], .send [4, 5], .flush true 10,
-   .input (exHdr 82 1 0 0) true false 20,
-   .input (exHdr 82 1 0 0) true false 21,
-   .input (exHdr 84 0 2 0) true false 22,
-   .input (exHdr 81 0 0 2 ++ [9, 9]) true false 23,
-   .input (exHdr 81 0 0 2 ++ [9, 9]) true false 24,
+   .input (c15ExHdr 82 1 0 0) true false 20,
+   .input (c15ExHdr 82 1 0 0) true false 21,
+   .input (c15ExHdr 84 0 2 0) true false 22,
+   .input (c15ExHdr 81 0 0 2 ++ [9, 9]) true false 23,
+   .input (c15ExHdr 81 0 0 2 ++ [9, 9]) true false 24,
    .recv 100]
 
 
-example : (runO (startO 7 0 0) exOps).gh.log =
+example : (runO (startO 7 0 0) c15ExOps).gh.log =
     [.get 0, .get 1, .use 0, .use 1, .put 1, .put 0, .get 2, .use 2, .put 2] := by decide
-example : sanitize (runO (startO 7 0 0) exOps).gh.log = .ok := by decide
-example : (runO (startO 7 0 0) (exOps.take 6)).sb.map (·.buf) = [some 0, none] := by decide
+example : sanitize (runO (startO 7 0 0) c15ExOps).gh.log = .ok := by decide
+example : (runO (startO 7 0 0) (c15ExOps.take 6)).sb.map (·.buf) = [some 0, none] := by decide
 
 end KcpVerif.Props
